@@ -54,4 +54,13 @@ def step_count_in_units(u, g, opt, tu):
     sc = RDScript(mk_system(0, g, 0), [0.0], time_step="%r %s" % (0.5 / fac, unit), t_max="%r %s" % (10.0 / fac, unit), sampling_policy="on_interval",
                   sampling_interval="%r %s" % (2.0 / fac, unit), units_system=SYS[KEYS[u % 11]])
     a = _abi(sc, option)
-    return abs(a["t_max"] / a["dt"] - 20.0) <= 1e-9 and abs(a["interval"] / a["dt"] - 4.0) <= 1e-9
+    if not (abs(a["t_max"] / a["dt"] - 20.0) <= 1e-9 and abs(a["interval"] / a["dt"] - 4.0) <= 1e-9):
+        return False
+    # requested sample times carrying their own unit (array with units / list of quantities): they reach the engine on the same scale as the time step
+    for form in (0, 1):
+        req = UnitArray([0.0, 2.0 / fac, 5.0 / fac], unit) if form == 0 else [UnitValue(0.0, unit), UnitValue(2.0 / fac, unit), UnitValue(5.0 / fac, unit)]
+        sc2 = RDScript(mk_system(0, g, 0), req, time_step="%r %s" % (0.5 / fac, unit), units_system=SYS[KEYS[u % 11]])
+        b = _abi(sc2, option)
+        if len(b["t_sample"]) != 3 or any(abs(t / b["dt"] - w) > 1e-9 for t, w in zip(b["t_sample"], [0.0, 4.0, 10.0])) or abs(b["t_max"] / b["dt"] - 10.0) > 1e-9:
+            return False
+    return True
